@@ -222,6 +222,10 @@ class FakeSession:
         fut: asyncio.Future[FakeResponse] = loop.create_future()
         self.requests_started += 1
         req = self.net.submit(self, loop, fut, method, url, payload, headers, timeout)
+        # For which object does the issuing task work? (per-object workers are named after the uid)
+        task = asyncio.current_task()
+        m = _WORKER_NAME.search(task.get_name()) if task is not None else None
+        req.attrs['intended_uid'] = m.group(1) if m else core.current_uid.get()
         try:
             return await fut
         except asyncio.CancelledError:
@@ -229,6 +233,7 @@ class FakeSession:
             raise
 
 
+_WORKER_NAME = re.compile(r"^worker for \(.*, '([^']+)'\)$")
 _URL_KIND = re.compile(r'/([a-z]+)(?:/([^/?]+))?(?:/(status))?$')
 
 
@@ -260,6 +265,7 @@ class Network:
         self.open_streams: list["WatchConn"] = []
         self.all_streams: list["WatchConn"] = []
         self.max_latency_used = 0.0
+        self.arrive_hooks: list[Any] = []  # called when a (non-watch) request reaches the server, before it is applied
 
     # --- keyed pseudo-randomness (never Python's hash(), never the global `random`) ---
     def _u(self, *key: Any) -> float:
@@ -397,6 +403,8 @@ class Network:
             # unless the plan says that in-flight writes of the killed process still land.
             if not getattr(session, 'inflight_lands', False):
                 return
+        for hook in self.arrive_hooks:
+            hook(req)
         fault = req.fault
         act = fault['action'] if fault is not None else {}
         kind = act.get('kind')
@@ -419,11 +427,13 @@ class Network:
             return
 
         self.cluster.current_actor = session.actor  # type: ignore[attr-defined]
+        self.cluster.current_ctx = {'rid': req.rid, 'intended_uid': req.attrs.get('intended_uid')}  # type: ignore[attr-defined]
         try:
             status, payload = self.cluster.handle(req.method, req.url, req.payload, req.headers,
                                                   actor=session.actor)
         finally:
             self.cluster.current_actor = None  # type: ignore[attr-defined]
+            self.cluster.current_ctx = None  # type: ignore[attr-defined]
         req.applied = True
         if session.dead:
             return
